@@ -326,6 +326,18 @@ fn run_op(st: &mut St, op: &Value) -> Value {
             Value::Object(m)
         }
         "collect" => tree_json(&(&st.g).collect(&key(op))),
+        "copy_collect" => {
+            // the copy path of patch graphs: collected tree -> Graph::build_key_from_iter -> collect
+            let k = key(op);
+            let t = (&st.g).collect(&k);
+            let mut patch = Graph::new();
+            patch.build_key_from_iter(&k, liwe::model::tree::TreeIter::new(&t));
+            let mut keys = serde_json::Map::new();
+            for kk in patch.keys() {
+                keys.insert(kk.to_string(), json!((&patch).get_node_id(&kk)));
+            }
+            json!({"tree": tree_json(&(&patch).collect(&k)), "arena": arena_json(&patch), "keys": Value::Object(keys)})
+        }
         "squash" => tree_json(&(&st.g).squash(&key(op), op["depth"].as_u64().unwrap() as u8)),
         "project" => {
             let k = key(op);
